@@ -270,12 +270,12 @@ def san_env(config, out):
     env = {}
     logp = out + '.san'
     if config in ('asan', 'fuzz'):
-        env['ASAN_OPTIONS'] = 'halt_on_error=0:detect_leaks=1:log_path=%s:abort_on_error=0:allocator_may_return_null=1:detect_stack_use_after_return=0:quarantine_size_mb=16:malloc_context_size=12' % logp
+        env['ASAN_OPTIONS'] = 'halt_on_error=0:detect_leaks=1:log_path=%s:abort_on_error=0:allocator_may_return_null=1:handle_segv=0:handle_sigbus=0:handle_sigfpe=0:handle_sigill=0:handle_abort=0:detect_stack_use_after_return=0:quarantine_size_mb=16:malloc_context_size=12' % logp
         env['UBSAN_OPTIONS'] = 'print_stacktrace=1:halt_on_error=0:log_path=%s' % logp
         env['LSAN_OPTIONS'] = 'log_path=%s:exitcode=0' % logp
         env['VF_SANLOG'] = logp
     elif config == 'tsan':
-        env['TSAN_OPTIONS'] = 'halt_on_error=0:log_path=%s:exitcode=0:second_deadlock_stack=1:history_size=4' % logp
+        env['TSAN_OPTIONS'] = 'halt_on_error=0:log_path=%s:exitcode=0:second_deadlock_stack=1:history_size=4:handle_segv=0:handle_sigbus=0:handle_abort=0' % logp
         env['VF_SANLOG'] = logp
     return env
 
